@@ -89,7 +89,7 @@ fn find_fn_in_items(items: &[syn::Item], t: &Target, out: &mut Vec<Found>) {
                         if trait_name.as_deref() != Some(tw.as_str()) {
                             continue;
                         }
-                    } else if trait_name.is_some() {
+                    } else if trait_name.is_some() && !t.any_impl {
                         // `Type :: f` names an inherent method; trait methods are `Trait for Type :: f`
                         continue;
                     }
@@ -959,12 +959,36 @@ fn emit_target(ctx: &mut Ctx, unit: &Unit, t: &Target) -> Emitted {
     let visible = unit.visible(&t.spec_file);
     rules.extend(unit.rules.iter().filter(|r| visible.contains(&r.file)));
     let n_rules = rules.len();
+    // by-value `mut self` receiver (unsupported by Verus): `self` + `let mut __self = self;` + rename
+    let mut_self = matches!(sig.inputs.first(), Some(syn::FnArg::Receiver(r)) if r.reference.is_none() && r.mutability.is_some());
+    if mut_self && t.sig.is_none() {
+        if let Some(syn::FnArg::Receiver(r)) = sig.inputs.first_mut() {
+            r.mutability = None;
+        }
+        fn rename_self(ts: TokenStream) -> TokenStream {
+            ts.into_iter().map(|tt| match tt {
+                proc_macro2::TokenTree::Ident(id) if id == "self" => proc_macro2::TokenTree::Ident(syn::Ident::new("__self", id.span())),
+                proc_macro2::TokenTree::Group(g) => {
+                    let mut ng = proc_macro2::Group::new(g.delimiter(), rename_self(g.stream()));
+                    ng.set_span(g.span());
+                    proc_macro2::TokenTree::Group(ng)
+                }
+                o => o,
+            }).collect()
+        }
+        let renamed = rename_self(block.to_token_stream());
+        block = match syn::parse2::<Block>(renamed) { Ok(b) => b, Err(e) => die(&format!("mut self lowering: {}", e)) };
+        block.stmts.insert(0, syn::parse_quote!(let mut __self = self;));
+    }
     let mut drop_g = unit.drop_generics.clone();
     drop_g.extend(t.drop_generics.iter().cloned());
     let mut lw = Lower { forloops: 0, drop_generics: drop_g.clone(), rules, counts: vec![0; n_rules], notes: BTreeMap::new() };
     lw.visit_block_mut(&mut block);
     if sig.asyncness.is_some() {
         lw.note("R1 async fn -> fn");
+    }
+    if mut_self && t.sig.is_none() {
+        lw.note("by-value `mut self` -> `self` rebound as `let mut __self = self`");
     }
     strip_vis_and_attrs_sig(&mut sig, &drop_g, t.keep_where);
     lw.visit_signature_mut(&mut sig);
@@ -1026,7 +1050,18 @@ fn emit_target(ctx: &mut Ctx, unit: &Unit, t: &Target) -> Emitted {
     out.push_str(&sig_text);
     out.push('\n');
     let cur_line = |s: &String| s.matches('\n').count() + 1;
-    for (kw, txt) in [("requires", &t.requires), ("ensures", &t.ensures), ("decreases", &t.decreases)] {
+    // vacuity variant (thorough tier): `ensures false` appended to ONE contracted function (named by
+    // VEXTRACT_VACUITY; one at a time, because a false postcondition makes every caller vacuous); the
+    // driver demands that it FAILS
+    let vac_ensures: Option<String> = if std::env::var("VEXTRACT_VACUITY").map(|v| v == t.name).unwrap_or(false) {
+        Some(match &t.ensures {
+            Some(e) => format!("{},\n    false", e.trim_end().trim_end_matches(',')),
+            None => "\n    false".to_string(),
+        })
+    } else {
+        t.ensures.clone()
+    };
+    for (kw, txt) in [("requires", &t.requires), ("ensures", &vac_ensures), ("decreases", &t.decreases)] {
         if let Some(txt) = txt {
             let base = cur_line(&out);
             let (b, idx) = clause_block(kw, txt, "    ");
@@ -1092,6 +1127,29 @@ fn emit_target(ctx: &mut Ctx, unit: &Unit, t: &Target) -> Emitted {
         out.push('\n');
     }
 
+    // crude call graph: identifiers directly followed by an argument list in the lowered body
+    fn collect_calls(ts: TokenStream, out: &mut std::collections::BTreeSet<String>) {
+        let toks: Vec<proc_macro2::TokenTree> = ts.into_iter().collect();
+        for i in 0..toks.len() {
+            if let proc_macro2::TokenTree::Group(g) = &toks[i] {
+                collect_calls(g.stream(), out);
+                if g.delimiter() == proc_macro2::Delimiter::Parenthesis && i > 0 {
+                    if let proc_macro2::TokenTree::Ident(id) = &toks[i - 1] {
+                        out.insert(id.to_string());
+                    }
+                }
+            }
+        }
+    }
+    let mut calls = std::collections::BTreeSet::new();
+    collect_calls(block.to_token_stream(), &mut calls);
+    let emitted_name = match &t.sig {
+        Some(sg) => {
+            // name after `fn`
+            sg.split("fn ").nth(1).map(|r| r.chars().take_while(|c| c.is_alphanumeric() || *c == '_').collect::<String>()).unwrap_or_default()
+        }
+        None => sig.ident.to_string(),
+    };
     let applied: Vec<serde_json::Value> = lw
         .rules
         .iter()
@@ -1117,6 +1175,9 @@ fn emit_target(ctx: &mut Ctx, unit: &Unit, t: &Target) -> Emitted {
         "rules_applied": applied,
         "builtin_passes": notes,
         "serves": t.serves,
+        "emitted_name": emitted_name,
+        "auto_extracted_without_contract": t.any_impl,
+        "calls": calls.into_iter().collect::<Vec<_>>(),
     });
     Emitted { text: out, obligs, info }
 }
@@ -1320,6 +1381,53 @@ fn main() {
     }
     if open_impl.is_some() {
         out.push_str("}\n");
+    }
+    // helper functions of the same impl that a target calls but that no contract names (e.g. a
+    // helper introduced by a refactoring): extracted automatically WITHOUT a contract — callers see
+    // only their signature, which over-approximates them
+    let mut known_targets: Vec<Target> = unit.items.iter().filter_map(|it| if let Item::Target(t) = it { Some(t.clone()) } else { None }).collect();
+    for _round in 0..3 {
+        let defined: std::collections::BTreeSet<String> = {
+            let mut d = std::collections::BTreeSet::new();
+            let bytes: Vec<&str> = out.split("fn ").collect();
+            for part in bytes.iter().skip(1) {
+                let name: String = part.chars().take_while(|c| c.is_alphanumeric() || *c == '_').collect();
+                if !name.is_empty() { d.insert(name); }
+            }
+            d
+        };
+        let mut new_targets: Vec<Target> = Vec::new();
+        for (fi, info) in functions.iter().enumerate() {
+            let caller = match known_targets.iter().find(|t| t.name == info["target"].as_str().unwrap_or("")) { Some(c) => c.clone(), None => continue };
+            let _ = fi;
+            if caller.impl_of.is_none() { continue; }
+            for c in info["calls"].as_array().cloned().unwrap_or_default() {
+                let name = c.as_str().unwrap_or("").to_string();
+                if name.is_empty() || defined.contains(&name) || new_targets.iter().any(|t| t.fn_name == name) { continue; }
+                let probe = Target { name: format!("auto_{}", name), file: caller.file.clone(), impl_of: caller.impl_of.clone(),
+                    fn_name: name.clone(), in_impl: caller.in_impl.clone(), spec_file: caller.spec_file.clone(), any_impl: true,
+                    serves: caller.serves.clone(), ..Default::default() };
+                let file = ctx.file(&probe.file).clone();
+                let mut found = Vec::new();
+                find_fn_in_items(&file.items, &probe, &mut found);
+                if found.len() == 1 { new_targets.push(probe); }
+            }
+        }
+        if new_targets.is_empty() { break; }
+        for t in new_targets {
+            let em = emit_target(&mut ctx, &unit, &t);
+            if let Some(h) = &t.in_impl { out.push_str(&format!("{} {{\n", h)); }
+            let base = out.matches('\n').count();
+            out.push_str(&format!("// ---- auto-extracted helper (no contract): {} :: {} ----\n", t.file, t.fn_name));
+            let base = base + 1;
+            let n_lines = em.text.matches('\n').count();
+            out.push_str(&em.text);
+            if t.in_impl.is_some() { out.push_str("}\n"); }
+            let mut info = em.info;
+            info["out_lines"] = json!([base + 1, base + n_lines]);
+            functions.push(info);
+            known_targets.push(t);
+        }
     }
     for p in &unit.lemmas {
         add_file(&mut out, "lemmas", p, "lemmas");
